@@ -96,6 +96,36 @@ func c14Extra(r *core.Run) {
 		}
 		o.Site(n, "rpc/internal")
 	})
+
+	r.Check("D1/K7/decay-interval", "the EWMA weight decays with the time since the connection's previous completion: the interval is now − last, where last is the value atomic.SwapInt64(&c.last, now) returned for that very now (an interval measured from the call's start goes negative under overlapping calls, is clamped to 0, and freezes both estimates)", func(o *core.O) {
+		n := 0
+		for _, f := range gxWithCreatedClosures(p.PkgFuncs(p2cPkg)) {
+			for _, sw := range core.Calls(f, gxAtomicOn("subConn.last", "SwapInt64")) {
+				call, ok := sw.(*ssa.Call)
+				if !ok {
+					continue
+				}
+				n++
+				r.Fn(core.FuncName(f))
+				stored := core.Strip(core.Forward(call.Call.Args[1]))
+				subs := 0
+				for _, in := range core.Instrs(f, func(in ssa.Instruction) bool {
+					b, ok := in.(*ssa.BinOp)
+					return ok && b.Op.String() == "-" && core.Strip(core.Forward(b.Y)) == ssa.Value(call)
+				}) {
+					subs++
+					b := in.(*ssa.BinOp)
+					if x := core.Strip(core.Forward(b.X)); x != stored && core.Describe(x) != core.Describe(stored) {
+						o.Fail(p.InstrPos(in), "the decay interval is %s − last, not the completion time written into subConn.last: with overlapping calls it is negative, the weight becomes 1 and a failing backend never turns unhealthy", core.Describe(b.X))
+					}
+				}
+				if subs == 0 {
+					o.Fail(p.InstrPos(sw), "the previous completion time returned by the swap is not used to measure the decay interval")
+				}
+			}
+		}
+		o.Site(n, p2cPkg)
+	})
 }
 
 // c14EvalString evaluates a string expression built from constants: a literal,
@@ -171,4 +201,27 @@ func c14EvalString(v ssa.Value, depth int) (string, bool) {
 		return fmt.Sprintf(format, args...), true
 	}
 	return "", false
+}
+
+// gxWithCreatedClosures adds to fs the function values their code creates that are not
+// listed themselves (bound-method wrappers: they have no lexical parent), transitively.
+func gxWithCreatedClosures(fs []*ssa.Function) []*ssa.Function {
+	seen := map[*ssa.Function]bool{}
+	for _, f := range fs {
+		seen[f] = true
+	}
+	out := append([]*ssa.Function(nil), fs...)
+	for i := 0; i < len(out); i++ {
+		for _, b := range out[i].Blocks {
+			for _, in := range b.Instrs {
+				if mc, ok := in.(*ssa.MakeClosure); ok {
+					if k, ok := mc.Fn.(*ssa.Function); ok && !seen[k] && k.Blocks != nil {
+						seen[k] = true
+						out = append(out, k)
+					}
+				}
+			}
+		}
+	}
+	return out
 }
